@@ -285,6 +285,13 @@ Definition names_b (l : loc) : bool := forallb is_name l.
 Definition walk_files (kf : nat) (t : tree) (q : loc) : list loc :=
   filter (fun e => strict_prefix q e && names_b e && walk_is_file kf t e) (nodup loc_eq_dec (map fst t)).
 
+(* the directories os.walk(q, followlinks=False) ENUMERATES (os.scandir): q itself when it is a directory and
+   every real directory below it.  lstat = Dir requires every proper prefix to be a directory, so nothing
+   reached through a link -- inward or outward -- is ever scanned. *)
+Definition walk_dirs (t : tree) (q : loc) : list loc :=
+  filter (fun e => is_prefix q e && names_b e && match lstat t e with Some Dir => true | _ => false end)
+         (nodup loc_eq_dec (q :: map fst t)).
+
 (* os.path.relpath(full, base) + the '..' guard *)
 Definition relativise (base full : loc) : res pstr :=
   let i := length (lcp base full) in
@@ -313,6 +320,13 @@ Definition list_files (d kf : nat) (t : tree) (cwd : loc) (base prefix : pstr) :
          | Err e => Err e
          | Ok rb => map_res (relativise rb) (walk_files kf t q)
          end
+  end.
+
+(* the directories a list_files call hands to os.scandir *)
+Definition list_scans (d : nat) (t : tree) (cwd : loc) (base prefix : pstr) : res (list loc) :=
+  match resolve d t cwd base prefix with
+  | Err e => Err e
+  | Ok q => if negb (exists_loc t q) then Ok [] else Ok (walk_dirs t q)
   end.
 
 (* ---------------------------------------------------------------- entry points
